@@ -15,12 +15,15 @@ mod util {
 }
 mod channel {
     pub(crate) mod queue;
+    #[path = "../qscen.rs"]
+    pub(crate) mod qscen;
 }
 mod executor {
     pub(crate) mod task;
 }
 
 mod seqops;
+mod slscen;
 
 use std::io::{BufRead, Write};
 
